@@ -954,6 +954,7 @@ func (h *hist) do(act string) bool {
 		h.committed = append(h.committed, commitRec{root: rootHash, accts: acctsOf(view), stale: u.stale})
 		u.cmPend = true
 		u.base, u.surv = rootHash, nil
+		u.noAux = true // Commit keeps logs and preimages, a StateDB opened at the new root has none
 	}
 	u.lastView = dumpView(u.s, &bad)
 	return true
@@ -1302,7 +1303,7 @@ func main() {
 
 	nDirected, nRandom, maxActs := 240, 1800, 60
 	if run.Thorough() {
-		nDirected, nRandom, maxActs = 2400, 40000, 80
+		nDirected, nRandom, maxActs = 2400, 60000, 80
 	}
 	dr := rng.Fork(1)
 	for i := 0; i < nDirected; i++ {
